@@ -220,3 +220,18 @@ def c12_store(result):
                     if isinstance(fld, hf.FloatField) and round(val, fld._places) != val:
                         errs.append(('read-unrounded', f'{a.line} read {name}={val!r} before rounding'))
     return errs
+
+
+# -- the store holds what was supplied (C05 file-vs-prompt, C13 write-back) --------------------------------
+def stored_equals_supplied(result):
+    errs = []
+    for name, v in result.final_inputs.items():
+        w = result.store_inputs.get(name)
+        if w is None:
+            errs.append(('supplied-value-not-stored', f'{name} was supplied as {v!r} but the store does not hold it after the run'))
+        elif w != v:
+            errs.append(('stored-text-differs', f'{name} was supplied as {v!r} but the store holds {w!r}'))
+    for name in result.store_inputs:
+        if name not in result.final_inputs:
+            errs.append(('store-invented-input', f'the store holds {name} = {result.store_inputs[name]!r}, which nobody supplied'))
+    return errs
